@@ -7,7 +7,7 @@ from harness.common import EPS_MONEY, bt, dates, frame
 
 BOUNDS = {
     'quick': 'flat tree (leveraged long/short targets from a grid), nested tree root->[sub(a,b), c] with a long/short sub-strategy, a root holding a '
-             'coupon-paying security (symbolic coupons), a fixed-income root; 4 dates, first-date prices concrete, all later prices symbolic in '
+             'coupon-paying security (symbolic coupons), a fixed-income root, a flat tree under a flat commission whose capital is withdrawn by an algo (symbolic amount; the negative value is first seen by the end-of-date refresh); 4 dates, first-date prices concrete, all later prices symbolic in '
              '[0.5, 1000]; fractional positions; initial capital 100000',
     'thorough': '5 dates, more target vectors, whole-unit positions, commissions',
 }
@@ -53,6 +53,19 @@ def h_bankrupt(run, cfg):
         cols = list(cfg['w'].keys())
         dts, data = mkdata(run, cols, nd)
         s = B.Strategy('s', [Spy(), A.RunOnce(), A.SelectAll(), A.WeighSpecified(**cfg['w']), A.Rebalance()])
+    elif shape == 'flat_drain':
+        # capital is withdrawn by an algo, so the negative value is first seen by the end-of-date refresh of a date that is already open
+        cols = list(cfg['w'].keys())
+        dts, data = mkdata(run, cols, nd)
+        kdrain = cfg.get('drain_on', 2)
+        x = run.real('drain', 0, 300000)
+
+        class Drain(B.Algo):
+            def __call__(self, target):
+                if target.now == dts[kdrain]:
+                    target.adjust(-x)
+                return True
+        s = B.Strategy('s', [Spy(), Drain(), A.RunOnce(), A.SelectAll(), A.WeighSpecified(**cfg['w']), A.Rebalance()])
     elif shape == 'nested':
         cols = ['a', 'b', 'c']
         dts, data = mkdata(run, cols, nd)
@@ -170,6 +183,7 @@ def h_bankrupt(run, cfg):
 
 
 HARNESSES = {'bankrupt': h_bankrupt}
+DECIMAL_REPLAYS = {'quick': 4, 'thorough': 8}      # liquidation arithmetic on two-decimal prices (models are dyadic)
 
 
 def plan(tier):
@@ -180,6 +194,10 @@ def plan(tier):
     flats = [dict(a=2.0, b=-1.5), dict(a=-1.0, b=0.5), dict(a=1.5)] + ([] if quick else [dict(a=3.0, b=-2.5), dict(a=-0.75, b=-0.5), dict(a=0.5, b=0.25)])
     for w in flats:
         tasks.append(dict(harness='bankrupt', cfg=dict(shape='flat', w=w, ndates=nd), opts=opts))
+    for w, so in ((dict(a=2.0, b=-1.5), None), (dict(a=0.75, b=0.25), ['a'])):
+        tasks.append(dict(harness='bankrupt', cfg=dict(shape='flat', w=w, ndates=nd, flatfee=1, symonly=so), opts=opts))
+        for k in (1, 2):
+            tasks.append(dict(harness='bankrupt', cfg=dict(shape='flat_drain', w=w, ndates=nd, flatfee=1, drain_on=k, symonly=so or ['a']), opts=opts))
     nests = [dict(w=dict(sub=1.5, c=-1.0), wsub=dict(a=2.0, b=-1.5)), dict(w=dict(sub=0.625, c=0.375), wsub=dict(a=2.0, b=-1.5))]
     if not quick:
         nests.append(dict(w=dict(sub=-0.5, c=1.25), wsub=dict(a=0.5, b=0.5)))
